@@ -471,6 +471,67 @@ ItrAbortR(c) ==
                    !.itr[c] = NoneH, !.snap[c] = <<>>])
 
 -----------------------------------------------------------------------------
+(***************************************************************************)
+(* cif_parse INTO an existing managed CIF, interleaved with API calls      *)
+(* (C04: "interleaved with parsing into them").  DOCS maps a document id   *)
+(* to a sequence of blocks [code, items], items a sequence of <<name,      *)
+(* value token>> scalars; the driver renders it as                         *)
+(*     data_<code>  _name value ...                                        *)
+(* The error callback accepts everything, so the documented recoveries of  *)
+(* parser.c apply (reopen the block on CIF_DUP_BLOCKCODE; parse and drop   *)
+(* the item on CIF_DUP_ITEMNAME), each scalar is stored with the semantics *)
+(* of cif_container_set_value on a new name, and the container is pruned   *)
+(* when it ends (parse_container).  The operators below take the state as  *)
+(* a record so that the blocks and items can be folded over.               *)
+(***************************************************************************)
+CONSTANT DOCS
+P_ContsOf(st, c) == {x \in st.cont : x.cif = c}
+P_LoopsOf(st, c, cid) == {l \in st.loops : l.cif = c /\ l.cid = cid}
+P_Rows(st, l) == {v.row : v \in {w \in st.vals : w.cif = l.cif /\ w.cid = l.cid /\ w.name \in Norms(l)}}
+\* one scalar item: returns [st, errs]
+P_Item(acc, c, cid, it) ==
+    LET st == acc.st  name == it[1]  v == it[2]  n == NormN(name)
+        x == CHOOSE y \in P_ContsOf(st, c) : y.id = cid
+        IL == {l \in P_LoopsOf(st, c, cid) : n \in Norms(l)}
+        SL == {l \in P_LoopsOf(st, c, cid) : l.cat = ""}
+    IN IF IL # {} THEN [st |-> st, errs |-> Append(acc.errs, DUP_ITEMNAME)]
+       ELSE LET old == IF SL = {} THEN [cif |-> c, cid |-> cid, num |-> x.nl, cat |-> "", last |-> 0, items |-> {}]
+                       ELSE CHOOSE l \in SL : TRUE
+                hadrows == P_Rows(st, old) # {}
+                new == [old EXCEPT !.items = @ \cup {[norm |-> n, orig |-> name]}, !.last = IF hadrows THEN @ ELSE @ + 1]
+                rows == P_Rows(st, old)
+            IN [st |-> [st EXCEPT !.loops = (@ \ SL) \cup {new},
+                                  !.cont = IF SL = {} THEN (@ \ {x}) \cup {[x EXCEPT !.nl = @ + 1]} ELSE @,
+                                  !.vals = IF hadrows THEN @ \cup {[cif |-> c, cid |-> cid, name |-> n, row |-> r, v |-> v] : r \in rows}
+                                           ELSE @ \cup {[cif |-> c, cid |-> cid, name |-> n, row |-> new.last, v |-> v]}],
+                errs |-> acc.errs]
+RECURSIVE P_Items(_, _, _, _)
+P_Items(acc, c, cid, items) == IF items = <<>> THEN acc ELSE P_Items(P_Item(acc, c, cid, Head(items)), c, cid, Tail(items))
+\* one block: create or reopen, store the items, prune the container
+P_Block(acc, c, b) ==
+    LET st == acc.st
+        M == {x \in P_ContsOf(st, c) : x.parent = 0 /\ x.norm = NormC(b.code)}
+        id == IF M = {} THEN st.nextId[c] ELSE (CHOOSE x \in M : TRUE).id
+        st1 == IF M = {} THEN [st EXCEPT !.cont = @ \cup {[cif |-> c, id |-> id, parent |-> 0, norm |-> NormC(b.code), orig |-> b.code, nl |-> 0]},
+                                          !.nextId[c] = id + 1]
+               ELSE st
+        a1 == P_Items([st |-> st1, errs |-> IF M = {} THEN acc.errs ELSE Append(acc.errs, DUP_BLOCKCODE)], c, id, b.items)
+        dead == {l \in P_LoopsOf(a1.st, c, id) : P_Rows(a1.st, l) = {}}
+    IN [st |-> [a1.st EXCEPT !.loops = @ \ dead], errs |-> a1.errs]
+RECURSIVE P_Blocks(_, _, _)
+P_Blocks(acc, c, bs) == IF bs = <<>> THEN acc ELSE P_Blocks(P_Block(acc, c, Head(bs)), c, Tail(bs))
+\* ids and loop counters stay within the model's bounds
+P_Fits(st, c) == /\ st.nextId[c] <= MaxId + 1
+                 /\ \A x \in P_ContsOf(st, c) : x.nl <= MaxNl /\ Cardinality(P_LoopsOf(st, c, x.id)) <= MaxLoopsPerCont
+ParseR(c, d) ==
+    IF ~(c \in cifs /\ ~Busy(c)) THEN Off ELSE
+    LET doc == DOCS[d]
+        ok == \A i \in 1..Len(doc) : ValidC(doc[i].code) /\ \A j \in 1..Len(doc[i].items) : ValidN(doc[i].items[j][1])
+        r == P_Blocks([st |-> Cur, errs |-> <<>>], c, doc)
+    IN IF ~ok \/ ~P_Fits(r.st, c) THEN Off
+       ELSE On([op |-> "parse_into", cif |-> c, doc |-> d, blocks |-> doc, rc |-> OK, errs |-> r.errs], r.st)
+
+-----------------------------------------------------------------------------
 CSl == SeqToSet(CSLOTS)
 LSl == SeqToSet(LSLOTS)
 
@@ -493,6 +554,7 @@ Results ==
     \cup {LoopSetCategoryR(t, cat) : t \in LSl, cat \in CATS}
     \cup {LoopAddItemR(t, n, v) : t \in LSl, n \in NAMES, v \in VALS}
     \cup {LoopAddPacketR(t, p) : t \in LSl, p \in Packets}
+    \cup {ParseR(c, d) : c \in CIFS, d \in DOMAIN DOCS}
 
 EnabledResults == {r \in Results : r.en}
 \* calls that leave the whole state (store and handles) as it is: queries and refused calls.  They are not transitions of
